@@ -587,6 +587,39 @@ func TestCheck(t *testing.T) {
 		c.Extra("schedules_root_MemFS", fmt.Sprintf("%d scheduled executions of 2-worker programs on root-level operands, pre-emption bound %d", execs, maxPre))
 	}
 
+	// (b-comp) the composite calls (ReadFile, WriteFile, ReadDir, WalkDir, Glob, MkdirAll, RemoveAll: several
+	// primitive calls each, with the tree free to change in between) against the calls that change what
+	// they are looking at - a file of more than one read buffer that grows, shrinks or goes away
+	// while it is read, a directory emptied while it is walked
+	for _, kind := range []string{"MemFS", "OrefaFS"} {
+		big := strings.Repeat("0123456789", 60)
+		prefix := []fsx.Op{{K: "WriteFile", P: "/w/big", Data: big, Perm: 0o644}, {K: "Mkdir", P: "/w/d", Perm: 0o755}, {K: "WriteFile", P: "/w/d/x", Data: "X", Perm: 0o644},
+			{K: "Mkdir", P: "/w/d/e", Perm: 0o755}, {K: "WriteFile", P: "/w/d/e/y", Data: "Y", Perm: 0o644}}
+		compCalls := [][]fsx.Op{
+			{{K: "ReadFile", P: "/w/big"}}, {{K: "WriteFile", P: "/w/big", Data: big + big, Perm: 0o644}},
+			{{K: "Open", P: "/w/big", Flag: os.O_WRONLY | os.O_APPEND, H: 0}, {K: "FWrite", H: 0, Data: "Z"}, {K: "FWrite", H: 0, Data: big}, {K: "FClose", H: 0}},
+			{{K: "Truncate", P: "/w/big", Size: 0}}, {{K: "Truncate", P: "/w/big", Size: 2000}}, {{K: "Remove", P: "/w/big"}}, {{K: "Rename", P: "/w/big", P2: "/w/d/big"}},
+			{{K: "ReadDir", P: "/w/d"}}, {{K: "WalkDir", P: "/w"}}, {{K: "Glob", P: "/w/*/*"}}, {{K: "RemoveAll", P: "/w/d"}}, {{K: "MkdirAll", P: "/w/d/e/m/n", Perm: 0o755}},
+			{{K: "Rename", P: "/w/d/e", P2: "/w/e"}}, {{K: "Remove", P: "/w/d/x"}},
+		}
+		i, execs := 0, 0
+		for a, c1 := range compCalls {
+			for b, c2 := range compCalls {
+				if b < a {
+					continue
+				}
+				i++
+				if i%c.NShards != c.Shard {
+					continue
+				}
+				p := conc.Program{FS: kind, Prefix: prefix, Workers: [][]fsx.Op{c1, c2}}
+				n, _ := exploreConc(c, p, maxPre, c.Pick(150, 2000))
+				execs += n
+			}
+		}
+		c.Extra("schedules_composites_"+kind, fmt.Sprintf("%d scheduled executions of pairs of %d composite and mutating calls on a 600-byte file and a small tree, pre-emption bound %d", execs, len(compCalls), maxPre))
+	}
+
 	// (b') 3 workers, random schedules
 	for _, kind := range []string{"MemFS", "OrefaFS"} {
 		kind := kind
